@@ -558,3 +558,34 @@ _check_before_r4t = check
 def check(ctx, run):  # noqa: F811
     _check_before_r4t(ctx, run)
     models_pointwise_in_time(ctx, run)
+    # R9: feature objects keep the options they were created with (every rule above builds its features from these attributes), and the
+    # containers keep the given features in the given order
+    from ..ctors import ctor_rule
+    FE_ = "pfhedge.features.features."
+    ctor_rule(ctx, run, "C02.R9", [FE_ + c for c in ("Moneyness", "UnderlierSpot", "Spot", "Barrier", "MaxMoneyness")], None,
+              "the feature evaluates another variant (log / threshold / direction) than the one it was created with")
+    prog, interp = ctx.prog, ctx.interp
+    f1_, f2_ = W.feature("Moneyness", log=False), W.feature("PrevHedge")
+    for cq, kw in (("pfhedge.features.container.FeatureList", dict(features=[f1_, f2_])), ("pfhedge.features.container.ModuleOutput", dict(module=Sym("module", ("callable",)), inputs=[f1_, f2_]))):
+        init = prog.lookup_method(cq, "__init__")
+        if init is None:
+            raise AnalysisError(f"anchor vanished: {cq}.__init__")
+        o = Obj(cq, "container")
+        try:
+            res = [r for r in interp.explore(init, [], dict(kw), self_obj=o) if not r["raises"]]
+        except Unsupported as ex:
+            raise AnalysisError(f"{cq}.__init__: {ex}")
+        ok = bool(res)
+        for r in res:
+            st = {e["attr"]: e["value"] for e in r["events"] if e["kind"] == "obj_setattr" and e.get("obj") is o}
+            fl_ = o if cq.endswith("FeatureList") else st.get("inputs")
+            feats = (st.get("features") if cq.endswith("FeatureList") else (fl_.attrs.get("features") if isinstance(fl_, Obj) else None))
+            ok = ok and isinstance(feats, list) and len(feats) == 2 and feats[0] is f1_ and feats[1] is f2_
+            if cq.endswith("ModuleOutput"):
+                added = [e for e in r["events"] if e["kind"] == "module_method" and e["method"] == "add_module" and e.get("recv") is o and len(e["args"]) == 2 and e["args"][0] == "module"]
+                ok = ok and (st.get("module") is kw["module"] or o.attrs.get("module") is kw["module"] or any(e["args"][1] is kw["module"] for e in added))
+        short = cq.rsplit(".", 1)[-1]
+        run.oblige("C02.R9", f"{short}.__init__ keeps the given features in order" + (" and the given module" if short == "ModuleOutput" else ""), ok, "")
+        if not ok:
+            run.fail(Finding("C02.R9", init.qualname, f"{short}: the stored features are not the given feature objects in the given order", "the container feeds the model other inputs than the ones it was created with",
+                             file=str(prog.modules[init.module].path), line=init.node.lineno))
